@@ -328,7 +328,7 @@ impl StoreCampaign {
     }
     let (mut bytes, origin) = match rng.below(10) {
       0..=1 => { let (n, t) = &self.texts[rng.below(self.texts.len())]; (t.as_bytes().to_vec(), n.clone()) }
-      2 => { let mut st = GenStats::default(); let _ = &mut st; let o = LayoutOpts { weird: rng.chance(1, 3), related: rng.chance(1, 2), dense: rng.chance(1, 6), absorbing: true, norepeat: true, special: true, max_map: 5, big: false, edge_times: true }; let l = gen_layout(&mut rng, &o); (serde_json::to_vec_pretty(&l).unwrap(), "random basic layout as saved".to_string()) }
+      2 => { let mut st = GenStats::default(); let _ = &mut st; let o = LayoutOpts { weird: rng.chance(1, 3), related: rng.chance(1, 2), dense: rng.chance(1, 6), absorbing: true, norepeat: true, special: true, max_map: 5, big: false, edge_times: true }; let l = if rng.chance(1, 4) { crate::gen::gen_wide_layout(&mut rng, &o) } else { gen_layout(&mut rng, &o) }; (serde_json::to_vec_pretty(&l).unwrap(), "random basic layout as saved".to_string()) }
       _ => { let v = layout_program(&mut rng); (if rng.chance(1, 2) { serde_json::to_vec(&v).unwrap() } else { serde_json::to_vec_pretty(&v).unwrap() }, "generated program".to_string()) }
     };
     let mut path = PathKind::File;
